@@ -149,8 +149,9 @@ if __name__ == "__main__":
         sys.stdout.flush()
     except BrokenPipeError:
         # the reader closed the pipe (e.g. `| head`): the verdict is still the exit code
+        import os as _os
         try:
-            sys.stdout.close()
+            _os.dup2(_os.open(_os.devnull, _os.O_WRONLY), sys.stdout.fileno())
         except Exception:
             pass
         code = 2
